@@ -71,6 +71,10 @@ CHECKS.update({
             "Bounded solver-checked: for term families (<=3 terms from a 12-term multilinear menu incl. categorical interactions and literal scalings) and wrt tuples of <=2 variables, every non-zero derivative term's materialised columns equal the iterated finite difference of the original term's columns for ALL data and ALL steps h != 0, zero derivatives have identically vanishing differences, and the number/order of terms is preserved.",
             "use_sympy=True not available (sympy absent from /venv); multilinear menu only.",
             "DESIGN.md §3 C20"),
+    "C19": ("CH", "CrossHair 0.0.110 (z3) symbolic execution of the real container classes, one law per harness function, one process per (law, shard); 'Confirmed over all paths' required; reachability twin per harness; counterexamples replayed natively; native cross-validation grid",
+            "Bounded solver-checked: LayeredMapping laws over SYMBOLIC dict[int,int] layers (<=3 layers, <=2 keys each; written keys in a 4-value range) and symbolic keys/values; Structured _map/_flatten/_simplify/_update/_merge laws over 9 enumerated shapes with symbolic integer leaves; SimpleFormula insert/setitem/delitem sequences of length 2 with symbolic indices and terms from a pool (path tree exhausted per operation pair).",
+            "Bounds as stated in evidence (layers/keys, shape menu, 2 operations, index range, pool size); CrossHair short-circuiting of contract-bearing callees is disabled so that every callee body is executed.",
+            "DESIGN.md §3 C19"),
 })
 
 NOT_APPLICABLE = {
